@@ -803,8 +803,12 @@ def _any_nested_set_params(sp: FunctionInfo) -> Set[str]:
 
 def check_d(ck, repo):
     n_fam = 0
+    from .sem import get_to_membership, name_table_entries, drop_caches
+
     for ci in sorted(repo.all_classes(), key=lambda c: c.qualname):
         gp, sp = ci.methods.get("get_params"), ci.methods.get("set_params")
+        if sp is not None and (get_to_membership(sp.node) + name_table_entries(sp.node)):
+            drop_caches(sp)
         if gp is None:
             continue
         fams = _getparams_families(gp)
